@@ -6,6 +6,7 @@
 #include <string_view>
 #include <optional>
 #include <unordered_map>
+#include <algorithm>
 
 namespace sqf::runtime
 {
@@ -55,13 +56,20 @@ namespace sqf::runtime
             void push_back(std::string key, size_t target_id)
             {
                 auto res = m_children.find(key);
-                if (res == m_children.end())
-                {
-                    m_children_vec.push_back(target_id);
+                if (res == m_children.end() || res->second == invalid_id)
+                { // Not yet known (or only known as deleted)
+                    if (target_id != invalid_id)
+                    {
+                        m_children_vec.push_back(target_id);
+                    }
                 }
                 else if (res->second == target_id)
                 {
                     return;
+                }
+                else if (target_id == invalid_id)
+                { // A deleted entry is no longer one of the own entries
+                    m_children_vec.erase(std::remove(m_children_vec.begin(), m_children_vec.end(), res->second), m_children_vec.end());
                 }
                 else
                 {
@@ -289,8 +297,8 @@ namespace sqf::runtime
 
                 // Find the targeted config ...
                 auto find_res = container.find(target);
-                if (find_res == container.end())
-                { // ... not found
+                if (find_res == container.end() || find_res->second == config::invalid_id)
+                { // ... not found (or deleted before)
                     // Create new container
                     auto& created = m_confighost.m_containers.emplace_back(m_confighost.m_containers.size(), target); // container might be invalidated here due to m_containers resizing.
 
@@ -323,6 +331,7 @@ namespace sqf::runtime
                     { // it is not
                         // Lookup inherited node and replace it
                         auto nav = lookup_in_logical(inherited);
+
                         replaced.id_parent_inherited = nav.m_index;
                     }
 
